@@ -46,7 +46,10 @@ TEXTS = {
                 "calculate(records of that kind, the term's annotations of that kind) and changes nothing else; with more than 65 535 records "
                 "of a kind that some term carries no ontology is built (C03_refuses_over_u16). The correspondence run reaches that limit "
                 "(65 535 accepted, 65 536 refused) with a block of add_* calls that the model appends at once, proved equal to the "
-                "call-by-call run for every block and builder state (C03_bulk_block_is_calls, C03_bulk_script). "
+                "call-by-call run for every block and builder state (C03_bulk_block_is_calls, C03_bulk_script). THE PROPERTY FOR EVERY BUILDER "
+                "SCRIPT (C03_builder_information_content + C03_builder_counts_are_the_inherited_sets): every term of the finished ontology has, "
+                "per kind, calculate(N, n) with N the number of records of the kind and n the size of the term's annotation set, which is "
+                "exactly the set of ids with a direct annotation at the term or at a descendant. "
                 "The float evaluation is executed bit-exactly (Flocq) against the crate with the runtime's logf as an oracle table: the float "
                 "layer is partial (no theorem about logf).",
         "design_ref": "DESIGN.md §4 C03, §2.6",
@@ -133,11 +136,13 @@ TEXTS = {
                 "carries exactly the annotations with a direct fact at the term or one of its descendants (the C02 statement), then after the "
                 "reload every term carries, for each kind, exactly the same set, for any permutation of the records in the file. ALL THESE "
                 "HYPOTHESES ARE DISCHARGED for Builder-built ontologies (C07_builder_ontologies_roundtrip: any script, any call order, failing "
-                "calls included). PARTIAL: "
-                "equality of the record maps and of the information content after reload is not yet a theorem (IC is a function of the counts: "
-                "C03); it is decided per generated "
-                "ontology by running the encode/decode transcription against as_bytes/from_bytes (bytes compared record-sorted, reload dumped "
-                "through the whole read API, Ontology::compare consulted) and by spec_C07 evaluated on the crate's observation.",
+                "calls included). THE WHOLE PROPERTY FOR EVERY BUILDER-BUILT ONTOLOGY (C07_builder_roundtrip_complete): additionally the "
+                "information content of every term, the record maps (exactly the records written, gene names cut at the limit, in file order), "
+                "the release version and — when the script ended in build_with_defaults — the category and modifier sets come back equal; "
+                "no hypothesis remains but that the format can carry the ontology (file_ok: ids and lengths within the field widths, valid "
+                "UTF-8). Not covered by a theorem: sources that were themselves loaded from JAX text or produced by sub_ontology — decided "
+                "per generated ontology by running the encode/decode transcription against as_bytes/from_bytes (bytes compared "
+                "record-sorted, reload dumped through the whole read API, Ontology::compare consulted) and by spec_C07 on the crate's observation.",
         "design_ref": "DESIGN.md §4 C07, §9", "note": NOTE_COMMON + "String::from_utf8 / is_char_boundary modelled by byte-level predicates.", "technique": TECH,
     },
     "C08": {
